@@ -13,6 +13,7 @@ Model of the definition-language code that is pure logic (C14):
 Core Lean only.  Tied to the real functions by the correspondence streams `cut`, `norm`, `graph`
 of props/C14.py.
 -/
+import Mistral.Model.Reverse
 namespace Mistral.Lang
 
 abbrev Str := List Char
@@ -345,7 +346,7 @@ def inbound (w : WfG) (n : String) : List TaskG := w.tasks.filter (fun s => (out
 def startTasks (w : WfG) : List TaskG := w.tasks.filter (fun t => (inbound w t.name).isEmpty)
 
 inductive GraphErr where
-  | noStartTasks | taskNotFound (n : String) | joinInbound (task : String)
+  | noStartTasks | taskNotFound (n : String) | joinInbound (task : String) | requiresCycle
 deriving Repr, DecidableEq
 
 instance : DecidableEq (Except GraphErr Unit) := fun a b =>
@@ -373,13 +374,19 @@ def firstBad (p : String → Bool) : List String → Option String
   | [] => none
   | x :: xs => if p x then firstBad p xs else some x
 
+/-- the reverse workflow as the run model `Mistral.Reverse` sees it (the target is chosen at start) -/
+def toSpec (w : WfG) (target : String := "") : Mistral.Reverse.Spec :=
+  { tasks := w.tasks.map fun t => { name := t.name, requires := t.requires },
+    defaultRequires := w.defaultRequires, target := target }
+
 /-- the graph part of `validate_semantics` (direct: start tasks, integrity, joins; reverse:
-    requirements).  Which missing name is reported first is not modelled (the code iterates sets). -/
+    requirements exist, then `_check_requires_cycles` = `Mistral.Reverse.requiresAcyclic`).  Which
+    missing name is reported first is not modelled (the code iterates sets). -/
 def validateGraph (w : WfG) : Except GraphErr Unit :=
   if w.reverse then
     match firstBad (linkOk w false) (w.tasks.flatMap (taskRequires w)) with
     | some n => .error (.taskNotFound n)
-    | none => .ok ()
+    | none => if Mistral.Reverse.requiresAcyclic (toSpec w) then .ok () else .error .requiresCycle
   else if (startTasks w).isEmpty then .error .noStartTasks
   else
     match firstBad (linkOk w true) (w.tasks.flatMap (outbound w)) with
